@@ -44,4 +44,25 @@ PROPS["C10"] = {
                   "checked by correspondence, not by a theorem.",
 }
 
+PROPS["C03"] = {
+    "drivers": [MAIN],
+    "rule": "for 10 option combinations (csrf-per-request x encode-state x PKCE, two of them on the server-side store): 3 logins "
+            "started in browser A, 1 in browser B, 1 at another deployment with another secret; every pairing of ~14 state values "
+            "(each login's, foreign, empty, colon-less, flipped characters, prefixes, re-combined nonce/redirect, garbage encodings) "
+            "with ~24 cookie sets (none, each login's only, whole jars in both orders, cross-browser, foreign, renamed, tampered at 5 "
+            "positions, truncated, tampered-then-valid, under the session name); non-trivial = every pairing; distinct = distinct model call",
+    "assumptions": ["HMAC-SHA256, AES-CFB + msgpack decoding of the CSRF record and SHA-256 are modelled as functions; in the "
+                    "correspondence they are tables computed with the Go standard library (not repository code) for the cookies presented",
+                    "c03_complete premises: hash output is 43 bytes without ':', decryption inverts encryption, timestamp in window, no other "
+                    "cookie under the login's own cookie name"],
+    "trusted_base": ["the in-memory IdP answers the redemption with a token echoing the nonce of the login the state's nonce part belongs to"],
+    "level_text": "c03_sound (for every state string, cookie list, MAC/decrypt/hash function: passing the callback's state check implies a "
+                  "validly signed CSRF cookie under the state-derived name whose state nonce hashes to the state's nonce part), "
+                  "c03_no_cookie_no_session and c03_complete (start then callback succeeds whatever other cookies are present, any order) "
+                  "are proved on the Gallina model of decodeState / GenerateCookieName / LoadCSRFCookie / CheckOAuthState; the model's "
+                  "outcome class (status, session cookie, redemption attempted, CSRF cookie cleared, Location) is compared with the real "
+                  "proxy's /oauth2/callback on every pairing on every run.",
+    "level_note": "That the cookie was *issued* by this proxy rests on MAC unforgeability (C02). Nonce/PKCE binding is C05.",
+}
+
 NOT_APPLICABLE = {}
